@@ -1375,8 +1375,16 @@ func (lhh *LightHouseHandler) handleHostUpdateNotification(n *NebulaMeta, fromVp
 	am.Lock()
 	lhh.lh.Unlock()
 
-	am.unlockedSetV4(fromVpnAddrs[0], fromVpnAddrs[0], n.Details.V4AddrPorts, lhh.lh.unlockedShouldAddV4)
-	am.unlockedSetV6(fromVpnAddrs[0], fromVpnAddrs[0], n.Details.V6AddrPorts, lhh.lh.unlockedShouldAddV6)
+	// The list serves every overlay address of the sender, so an address must be allowed for all of them, like the
+	// roaming and handshake paths require
+	shouldAddV4 := func(_ netip.Addr, to *V4AddrPort) bool {
+		return lhh.lh.shouldAdd(fromVpnAddrs, protoV4AddrPortToNetAddrPort(to).Addr())
+	}
+	shouldAddV6 := func(_ netip.Addr, to *V6AddrPort) bool {
+		return lhh.lh.shouldAdd(fromVpnAddrs, protoV6AddrPortToNetAddrPort(to).Addr())
+	}
+	am.unlockedSetV4(fromVpnAddrs[0], fromVpnAddrs[0], n.Details.V4AddrPorts, shouldAddV4)
+	am.unlockedSetV6(fromVpnAddrs[0], fromVpnAddrs[0], n.Details.V6AddrPorts, shouldAddV6)
 	am.unlockedSetRelay(fromVpnAddrs[0], relays)
 	am.Unlock()
 
